@@ -145,6 +145,40 @@ EPOLL_PATTERNS = [
 ]
 
 
+NOT_STEPS = {"{", "}", "return", "continue", "setup", "drop stream", "accept", "epoll_wait", "drain_wake", "take dead list"}
+
+
+def merge_take_teardown(toks):
+    out = []
+    for t in toks:
+        if t == "teardown" and out and out[-1] == "take stream":
+            out[-1] = "take stream + teardown"
+        else:
+            out.append(t)
+    return out
+
+
+def site_actions(job, serve):
+    """label every synchronisation action with its code site (job / job.keep / job.close / loop.event /
+    loop.batch_end / accept / accept.fail), event branch before accept branch (the model's order)"""
+    out = []
+    j = merge_take_teardown([t for t in job if t not in NOT_STEPS])
+    for t in j:
+        site = "job" if t == "handle_one_request" else "job.keep" if t.startswith("store in_flight") else "job.close"
+        out.append(f"{site}: {t}")
+    sv = merge_take_teardown([t for t in serve if t not in NOT_STEPS])
+    ev_start = next((i for i, t in enumerate(sv) if t.startswith("load closed")), len(sv))
+    acc, ev = sv[:ev_start], sv[ev_start:]
+    for t in ev:
+        out.append(("loop.batch_end: " if t == "free_dead" else "loop.event: ") + t)
+    seen_add = False
+    for t in acc:
+        out.append(("accept.fail: " if seen_add else "accept: ") + t)
+        if t == "epoll_ctl ADD":
+            seen_add = True
+    return out
+
+
 def lean_list(name, toks):
     return f"def {name} : List String := [" + ", ".join('"' + t.replace('"', "'") + '"' for t in toks) + "]"
 
@@ -166,6 +200,10 @@ def main():
     L.append(lean_list("epollJobRun", skeleton(fn_body(ep[m.end():], "run"), EPOLL_PATTERNS)))
     L.append(lean_list("epollServe", skeleton(fn_body(ep, "serve_epoll"), EPOLL_PATTERNS)))
     L.append(lean_list("epollFreeDead", skeleton(fn_body(ep, "free_dead"), EPOLL_PATTERNS)))
+    # the same actions, labelled by code site, in the order in which the model lists its annotated steps
+    job = skeleton(fn_body(ep[m.end():], "run"), EPOLL_PATTERNS)
+    serve = skeleton(fn_body(ep, "serve_epoll"), EPOLL_PATTERNS)
+    L.append(lean_list("epollActions", site_actions(job, serve)))
     L.append("\nend Khttp.Gen\n")
     text = "\n".join(L)
     old = open(OUT).read() if os.path.exists(OUT) else None
